@@ -344,9 +344,10 @@ def run(ctx):
     r02_4(ctx)
     r02_5(ctx)
     r12_1(ctx, rule='R02.6', modules=('einfo',), floor=5)
-    from .c12 import r12_5, r12_2
+    from .c12 import r12_5, r12_2, task_failure_record
     r12_5(ctx)
     r12_2(ctx)
+    task_failure_record(ctx, 'R02.8')
     # the reorder buffer, the item queue and the value list of a handle belong to that handle alone
     from .generic import per_instance_state
     per_instance_state(ctx, 'R02.7', ['pool'], floor=8)
